@@ -383,11 +383,21 @@ def _sequential_first(mod, tier, seed, cap_s, stop_after=None, units=None):
         return pool.apply(_seq_child, (None,))
 
 
-def _safe_replay(mod, case):
+def _replay_child(_ignored):
+    a = _UNIT_ARGS
     try:
-        return [(_s, _short(e), _short(o)) for (_s, e, o) in mod.replay(case)]
-    except Exception:
+        return [(_s, _short(e), _short(o)) for (_s, e, o) in a["mod"].replay(a["case"])]
+    except BaseException:
         return "EXC " + traceback.format_exc()
+
+
+def _safe_replay(mod, case):
+    """replay one case in a process forked from this one, which never runs library code itself: every replay sees the
+    library in the state it has right after import (as `./check --replay` does)"""
+    _UNIT_ARGS.update(mod=mod, case=case)
+    ctx = mp.get_context("fork")
+    with ctx.Pool(1) as pool:
+        return pool.apply(_replay_child, (None,))
 
 
 def do_replay(mod, path):
